@@ -209,7 +209,7 @@ def from_nested(obj, dtype=None):
     if isinstance(obj, SArr):
         return obj
     if isinstance(obj, MaskedSel) and obj.mask.ndim == 1 and obj.arr.ndim >= 1:
-        return compress_rows(obj.arr, obj.mask)
+        return materialize(obj)
     if is_num(obj):
         k = kind_of(obj)
         return SArr((), lambda idx, v=obj: v, dtype or k)
@@ -474,6 +474,16 @@ def mask_selection(mask):
     except Exception:
         pass
     return sel
+
+
+def materialize(ms):
+    """the array a row-mask selection stands for (one array object per selection, so that later in-place updates of
+    it are seen by later reads)"""
+    got = getattr(ms, "_mat", None)
+    if got is None:
+        got = compress_rows(from_nested(ms.arr) if not isinstance(ms.arr, SArr) else ms.arr, ms.mask)
+        ms._mat = got
+    return got
 
 
 def compress_rows(a, mask):
